@@ -9,6 +9,7 @@
 (*  c16_chunk  re-run with a short-transfer schedule                       *)
 (*  c16_wintr  fault of the retryable kind (Interrupted) at operation `at` *)
 (*  c16_wretry a failed finalize tried again on the same writer            *)
+(*  c16_rintr  the retryable kind at operation `at` of the reader program  *)
 (* Model of the intended behaviour: a device error inside a call unwinds   *)
 (* to that call's result (Err); nothing is retried or swallowed; finalize  *)
 (* reports Ok only after the final flush succeeded, so what is durable is  *)
@@ -50,6 +51,13 @@ T_WRetry ==
     /\ ChkP(E.panicked = 0, {"C16", "C10"}, "panic-under-device-fault")
     /\ ChkP(E.retry_ok = 1 => E.reads_complete = 1, {"C16"}, "repeated-finalize-ok-but-the-device-does-not-hold-the-complete-file")
     /\ UNCHANGED vars
+\* the retryable kind while reading: a loop may repeat the device operation; every read operation then fails or returns
+\* exactly what it returns on the undisturbed device (also the operations after the one that was hit)
+T_RIntr ==
+    /\ IsEv("c16_rintr")
+    /\ ChkP(E.panicked = 0, {"C16", "C08"}, "panic-under-device-fault")
+    /\ ChkP(E.nbad = 0, {"C16"}, "read-result-differs-after-an-interrupted-device-operation")
+    /\ UNCHANGED vars
 T_RFault ==
     /\ IsEv("c16_rfault")
     /\ ChkP(E.at = nr /\ E.at < rops, {"C16"}, "fault-positions-not-exhaustive")
@@ -76,6 +84,6 @@ T_ReadLoops ==
     /\ IsEv("c16_readloops")
     /\ \A k \in 1..Len(E.loops) : ChkP(LoopOk(E.loops[k], 1, 1024), {"C16"}, "page-reload-loop-does-not-follow-ChunkSpec")
     /\ UNCHANGED vars
-TNext == T_WIntr \/ T_WRetry \/ T_ReadLoops \/ T_Reset \/ T_Ref \/ T_RRef \/ T_WFault \/ T_RFault \/ T_Chunk
+TNext == T_RIntr \/ T_WIntr \/ T_WRetry \/ T_ReadLoops \/ T_Reset \/ T_Ref \/ T_RRef \/ T_WFault \/ T_RFault \/ T_Chunk
 TSpec == TInit /\ [][TNext]_<<vars, l>>
 =============================================================================
